@@ -391,7 +391,7 @@ pub fn run_c35(ctx: &Ctx) -> i32 {
          public): '/' is replaced by U+2215 and '.'/'..' are prefixed so that the string is a single \
          path component; all other characters are unchanged",
     );
-    let n = ctx.tier().pick(100_000, 3_000_000);
+    let n = ctx.tier().pick(1_000_000, 3_000_000);
     par_cases(ctx, n, threads(), |i, cs, rng| {
         let s = gen_hostile_string(rng, 24);
         let remote = if rng.chance(1, 4) {
@@ -936,7 +936,7 @@ pub fn run_c44(ctx: &Ctx) -> i32 {
         ctx.case(2, true);
         return ctx.finish(0);
     }
-    let n = ctx.tier().pick(150_000, 5_000_000);
+    let n = ctx.tier().pick(1_500_000, 5_000_000);
     par_cases(ctx, n, threads(), |i, cs, rng| {
         let text = gen_width_text(rng, 20, true, false, true);
         let ellipsis = match rng.below(10) {
